@@ -9,6 +9,7 @@ import (
 
 	"github.com/transparency-dev/merkle/rfc6962"
 	"github.com/transparency-dev/witness/monitoring"
+	"golang.org/x/mod/sumdb/tlog"
 )
 
 // ---------- RFC 6962 hasher: ideal (collision-free, domain-separated) hash ----------
@@ -27,6 +28,36 @@ func HasherSize(h *rfc6962.Hasher) int { return 32 }
 
 //wsym:replace github.com/transparency-dev/merkle/rfc6962.New
 func NewHasher(h uint) *rfc6962.Hasher { return &rfc6962.Hasher{} }
+
+//wsym:replace golang.org/x/mod/sumdb/tlog.NodeHash
+func TlogNodeHash(l, r tlog.Hash) tlog.Hash {
+	return tlog.Hash(Hash32(Ctor("node", BytesOf32(l), BytesOf32(r))))
+}
+
+// MTH is the RFC 6962 Merkle tree hash over a list of leaf hashes (concrete length).
+func MTH(leaves [][]byte) []byte {
+	n := len(leaves)
+	if n == 0 {
+		return Ctor("emptyroot")
+	}
+	if n == 1 {
+		return leaves[0]
+	}
+	k := 1
+	for k*2 < n {
+		k *= 2
+	}
+	return Ctor("node", MTH(leaves[:k]), MTH(leaves[k:]))
+}
+
+// Leaves returns n fresh leaf hashes Leaf(d_i) with arbitrary leaf data d_i.
+func Leaves(name string, n int) [][]byte {
+	var out [][]byte
+	for i := 0; i < n; i++ {
+		out = append(out, Ctor("leaf", Bytes(name)))
+	}
+	return out
+}
 
 // ---------- sync ----------
 
